@@ -141,17 +141,22 @@ def worker(args):
 
 
 def replay_c05(c):
+    """whole program through the public API: accepted by the real verifier (EbpfVm*::new) and then crashing the interpreter"""
+    from driver import Driver
     md = c.get('model')
     if md is None: return True, 'structural'
-    if not c['role'].split('/')[2].startswith('crash'):
-        # an invariant violation is a proof-step failure; it manifests as a crash some steps later. Replay the one step
-        # and look for any crash of the whole program.
-        pass
-    r, info = replaylib.replay_interp(dict(c, role=c['role']))
-    nat = (c.get('replay') or {}).get('native', {})
-    if nat.get('status') in ('panic', 'signal'): return True, info
-    if r is None: return None, info
-    return False, info
+    b, why = replaylib.build_interp_program(md)
+    if b is None: return None, why
+    k = spec.classify(md['opc'])
+    helpers = [(md['imm'] & 0xffffffff, 'h1')] if k and k[0] == 'call' and md['src'] == 0 else []
+    info = []
+    for prof in (['dev'] if c.get('profile', 'dev') == 'dev' else ['release']):
+        nat = Driver.get(prof).run(b['prog'], vm='mbuff', mem=b['mem'], mbuff=b['mbuff'], extra=b['extra'], engine='interp', helpers=helpers, allowed=b['allowed'], patch=b['patch'])
+        c['replay'] = dict(prog=b['prog'].hex() if len(b['prog']) < 4096 else f'<{len(b["prog"])//8} slots>', patch=b['patch'], profile=prof, native={k2: v for k2, v in nat.items() if k2 in ('status', 'value', 'msg', 'sig')})
+        if nat.get('status') in ('panic', 'signal', 'driver_died'): return True, f'[{prof}] accepted by the verifier, then the interpreter {nat["status"]}: {nat.get("msg", nat.get("sig"))}'
+        if nat.get('status') == 'load_err': return None, f'[{prof}] the replay program is rejected by the verifier: {nat.get("msg")}'
+        info.append(f'[{prof}] native run: {nat.get("status")}')
+    return False, '; '.join(info)
 
 
 def run():
